@@ -550,9 +550,11 @@ theorem inv_step (s : State) (h : Inv s) (l : Label) (hd : l.disciplined = true)
     · exact inv_congr h rfl rfl rfl rfl rfl rfl
   | closeEnter =>
     simp only [step] at hs
-    split at hs <;> (simp only [Option.some.injEq, Prod.mk.injEq] at hs; rw [← hs.1])
-    · exact h
-    · exact inv_congr h rfl rfl rfl rfl rfl rfl
+    split at hs
+    · simp only [Option.some.injEq, Prod.mk.injEq] at hs; rw [← hs.1]; exact h
+    · split at hs <;> (simp only [Option.some.injEq, Prod.mk.injEq] at hs; rw [← hs.1])
+      · exact h
+      · exact inv_congr h rfl rfl rfl rfl rfl rfl
   | closeDone =>
     simp only [step] at hs
     split at hs
@@ -709,7 +711,9 @@ theorem step_objle (s : State) (h : Inv s) (l : Label) (s' : State) (out : Out)
     split at hs <;> (simp only [Option.some.injEq, Prod.mk.injEq] at hs; rw [← hs.1]) <;> exact fun x => ObjLe.refl _
   | closeEnter =>
     simp only [step] at hs
-    split at hs <;> (simp only [Option.some.injEq, Prod.mk.injEq] at hs; rw [← hs.1]) <;> exact fun x => ObjLe.refl _
+    split at hs
+    · simp only [Option.some.injEq, Prod.mk.injEq] at hs; rw [← hs.1]; exact fun x => ObjLe.refl _
+    · split at hs <;> (simp only [Option.some.injEq, Prod.mk.injEq] at hs; rw [← hs.1]) <;> exact fun x => ObjLe.refl _
   | closeDone =>
     simp only [step] at hs
     split at hs
@@ -800,18 +804,30 @@ def Label.isClose : Label → Bool
   | _ => false
 
 structure CInv (s : State) : Prop where
-  notDone : s.clientDone = false → s.closersB = 0 ∧ s.clientClosed = false
-  bLe : s.closersB ≤ 1
+  /-- the code under test is the current one (compare-and-swap at the entry of `Close`). -/
+  cur : s.oldClose = false
+  /-- nobody took the `isCloseing` flag yet: no `Close` is in flight and nothing is closed. -/
+  idle : s.closing = false → s.closersA = 0 ∧ s.closersB = 0 ∧ s.clientDone = false ∧ s.clientClosed = false
+  /-- at most one `Close` call runs the close sequence. -/
+  one : s.closersA + s.closersB ≤ 1
+  aOpen : s.closersA = 1 → s.clientDone = false
   bOpen : s.closersB = 1 → s.clientClosed = false
-  /-- as long as no two `Close` calls overlapped: at most one is in flight, it has not met a closed
-  `done`, and between calls `done` is closed only if the client is marked closed. -/
-  serial : s.closeOverlap = false → s.closersA + s.closersB ≤ 1 ∧ (s.closersA = 1 → s.clientDone = false) ∧
-      (s.closersA + s.closersB = 0 → s.clientDone = true → s.clientClosed = true)
+  notDone : s.clientDone = false → s.closersB = 0 ∧ s.clientClosed = false
+
+/-- no label changes the configuration. -/
+theorem oldClose_step (s s' : State) (l : Label) (out : Out) (hs : step s l = some (s', out)) :
+    s'.oldClose = s.oldClose := by
+  cases l <;>
+    (simp only [step] at hs
+     repeat' split at hs
+     all_goals first
+       | (simp at hs; done)
+       | (simp only [Option.some.injEq, Prod.mk.injEq] at hs; rw [← hs.1]))
 
 theorem close_frame (s s' : State) (l : Label) (out : Out) (hs : step s l = some (s', out))
     (hl : l.isClose = false) :
     s'.closersA = s.closersA ∧ s'.closersB = s.closersB ∧ s'.clientDone = s.clientDone ∧
-    s'.clientClosed = s.clientClosed ∧ s'.closeOverlap = s.closeOverlap := by
+    s'.clientClosed = s.clientClosed ∧ s'.closing = s.closing := by
   cases l <;> first
     | (exact absurd hl (by decide))
     | (simp only [step] at hs
@@ -831,83 +847,85 @@ theorem panic_only_close (s s' : State) (l : Label) (hs : step s l = some (s', .
 
 theorem cinv_step (s : State) (h : CInv s) (l : Label) (s' : State) (out : Out)
     (hs : step s l = some (s', out)) : CInv s' := by
+  have hcur : s'.oldClose = false := by rw [oldClose_step s s' l out hs]; exact h.cur
   by_cases hl : l.isClose = false
   · obtain ⟨e1, e2, e3, e4, e5⟩ := close_frame s s' l out hs hl
     constructor
-    · rw [e2, e3, e4]; exact h.notDone
-    · rw [e2]; exact h.bLe
+    · exact hcur
+    · rw [e1, e2, e3, e4, e5]; exact h.idle
+    · rw [e1, e2]; exact h.one
+    · rw [e1, e3]; exact h.aOpen
     · rw [e2, e4]; exact h.bOpen
-    · rw [e1, e2, e3, e4, e5]; exact h.serial
-  · have hnd := h.notDone; have hb := h.bLe; have hbo := h.bOpen; have hse := h.serial
+    · rw [e2, e3, e4]; exact h.notDone
+  · have hid := h.idle; have hone := h.one; have hao := h.aOpen; have hbo := h.bOpen; have hnd := h.notDone
+    have hc := h.cur
     cases l <;> first
       | (exact absurd rfl hl)
       | skip
     · -- closeEnter
       simp only [step] at hs
-      split at hs <;> (simp only [Option.some.injEq, Prod.mk.injEq] at hs; rw [← hs.1])
-      · exact h
-      · rename_i hc
-        simp only [Bool.or_eq_true, Bool.not_eq_true', not_or] at hc
-        constructor
-        · exact hnd
-        · exact hb
-        · exact hbo
-        · intro ho
-          simp only [Bool.or_eq_false_iff, decide_eq_false_iff_not, Nat.not_lt, Nat.le_zero_eq] at ho
-          obtain ⟨ho1, ho2⟩ := ho
-          obtain ⟨_, _, h3⟩ := hse ho1
-          have hcd : s.clientDone = false := by
-            cases hd : s.clientDone
+      split at hs
+      · simp only [Option.some.injEq, Prod.mk.injEq] at hs; rw [← hs.1]; exact h
+      · split at hs <;> (simp only [Option.some.injEq, Prod.mk.injEq] at hs; rw [← hs.1])
+        · exact h
+        · rename_i hcl
+          have hclosing : s.closing = false := by
+            cases hx : s.closing
             · rfl
-            · have := h3 ho2 hd; simp [this] at hc
-          refine ⟨by simp only; omega, fun _ => hcd, fun hz => ?_⟩
-          simp only at hz; omega
+            · simp [hx, hc] at hcl
+          obtain ⟨a0, b0, d0, c0⟩ := hid hclosing
+          constructor
+          · exact hc
+          · intro hx; simp at hx
+          · simp only; omega
+          · intro _; exact d0
+          · intro hx; simp only at hx; omega
+          · exact hnd
     · -- closeDone
       simp only [step] at hs
       split at hs
       · simp at hs
       · rename_i a ha
-        split at hs <;> (simp only [Option.some.injEq, Prod.mk.injEq] at hs; rw [← hs.1])
-        · rename_i hd
-          constructor
-          · exact hnd
-          · exact hb
-          · exact hbo
-          · intro ho
-            obtain ⟨h1, h2, _⟩ := hse ho
-            have : s.closersA = 1 := by omega
-            simp [h2 this] at hd
-        · rename_i hd
-          have hd' : s.clientDone = false := by simpa using hd
-          obtain ⟨hb0, hcc⟩ := hnd hd'
-          constructor
-          · intro hx; simp at hx
-          · simp only; omega
-          · intro _; exact hcc
-          · intro ho
-            obtain ⟨h1, _, _⟩ := hse ho
-            refine ⟨by simp only; omega, fun ha1 => ?_, fun hz => ?_⟩
-            · simp only at ha1; omega
-            · simp only at hz; omega
+        have hA : s.closersA = 1 := by omega
+        have hB : s.closersB = 0 := by omega
+        have hd := hao hA
+        simp only [hd, Bool.false_eq_true, if_false, Option.some.injEq, Prod.mk.injEq] at hs
+        rw [← hs.1]
+        have ha0 : a = 0 := by omega
+        subst ha0
+        have hclosing : s.closing = true := by
+          cases hx : s.closing
+          · have := (hid hx).1; omega
+          · rfl
+        constructor
+        · exact hc
+        · intro hx; simp [hclosing] at hx
+        · simp only; omega
+        · intro hx; simp at hx
+        · intro _; exact (hnd hd).2
+        · intro hx; simp at hx
     · -- closeFinish
       simp only [step] at hs
       split at hs
       · simp at hs
-      · rename_i b hbq
-        split at hs <;> (simp only [Option.some.injEq, Prod.mk.injEq] at hs; rw [← hs.1])
-        · rename_i hcc
-          have : s.closersB = 1 := by omega
-          simp [hbo this] at hcc
-        · have hb1 : b = 0 := by omega
-          subst hb1
-          constructor
-          · intro hx
-            have := (hnd hx).1; omega
-          · simp
-          · intro hx; simp at hx
-          · intro ho
-            obtain ⟨h1, h2, _⟩ := hse ho
-            refine ⟨by simp only; omega, fun ha1 => ?_, fun _ _ => rfl⟩
-            simp only at ha1; omega
+      · rename_i b hb
+        have hB : s.closersB = 1 := by omega
+        have hA : s.closersA = 0 := by omega
+        have hcc := hbo hB
+        simp only [hcc, Bool.false_eq_true, if_false, Option.some.injEq, Prod.mk.injEq] at hs
+        rw [← hs.1]
+        have hb0 : b = 0 := by omega
+        subst hb0
+        have hclosing : s.closing = true := by
+          cases hx : s.closing
+          · have := (hid hx).2.1; omega
+          · rfl
+        constructor
+        · exact hc
+        · intro hx; simp [hclosing] at hx
+        · simp only; omega
+        · exact hao
+        · intro hx; simp at hx
+        · intro hx; have := (hnd hx).1; omega
 
 end C36
